@@ -16,7 +16,8 @@ BOUNDS = {
               dict(N=4, K=3, depths=(1, 2), modes=("r0",), grouped=(False,)),
               dict(N=4, K=3, depths=(1, 2), modes=("r0", "rp"), grouped=(False,), kinds=hitx.KINDS_E),
               dict(N=4, K=3, depths=(1, 2), modes=("r0", "rp"), grouped=(False,), kinds=hitx.KINDS_LBL),
-              dict(N=4, K=2, depths=(1, 2), modes=("r0", "rp", "rk"), grouped=hitx.HOWS)],
+              dict(N=4, K=2, depths=(1, 2), modes=("r0", "rp", "rk"), grouped=hitx.HOWS),
+              dict(N=4, K=3, depths=(1, 2, 3), modes=("rs",), grouped=(False,), kinds=hitx.KINDS_RS)],
         streams="quick"),
     "thorough": dict(
         full=[dict(N=4, K=3, depths=(1, 2, 3), modes=("r0", "rp"), grouped=(False,), hi=True, kinds=hitx.KINDS_HI),
@@ -26,7 +27,8 @@ BOUNDS = {
               dict(N=5, K=3, depths=(1, 2), modes=("r0", "rp"), grouped=(False,), kinds=hitx.KINDS_E),
               dict(N=4, K=4, depths=(2,), modes=("r0",), grouped=(False,), kinds=("p", "d1", "e")),
               dict(N=5, K=3, depths=(1, 2), modes=("r0", "rp"), grouped=(False,), kinds=hitx.KINDS_LBL),
-              dict(N=4, K=3, depths=(1, 2), modes=("r0", "rp", "rk"), grouped=hitx.HOWS)],
+              dict(N=4, K=3, depths=(1, 2), modes=("r0", "rp", "rk"), grouped=hitx.HOWS),
+              dict(N=4, K=3, depths=(1, 2, 3), modes=("rs",), grouped=(False,), kinds=hitx.KINDS_RS)],
         ties=[dict(N=4, K=4, depths=(2,), modes=("r0",), grouped=(False,))],
         streams="thorough"),
 }
